@@ -6,13 +6,17 @@ META = dict(
     engine="E4",
     level="model_checking",
     text="specs/Psbt models a PSBT as [version 0/2, fallback locktime, tx-modifiable flags, global fields, inputs [sequence, required time "
-         "locktime, required height locktime, fields], outputs [fields]] with fields at the granularity of the serialized key. Three TLC-enumerated "
+         "locktime, required height locktime, fields], outputs [fields]] with fields at the granularity of the serialized key. Four TLC-enumerated "
          "tables: (lock) every combination of none/time/height/both for 0-3 inputs over boundary values (1, 499999999 | 500000000, 2^32-1) x "
          "fallback x sequence pattern, where TLC proves the fold of ComputeTimeLock equal to the declarative BIP370 rule (height preferred, "
          "undetermined on conflicting requirements, fallback otherwise, order of inputs irrelevant); (merge) 14-15 scenarios covering every "
          "field type, each field group assigned to every non-empty set of holders among 2-3 parts, where TLC proves Merge(p,p)=p, commutativity, "
          "associativity, result = union containing every field, on conflict-free operands of one transaction, and predicts CombinePSBTs for every "
-         "order; (raw) input maps assembled field by field in orders the serializer never produces. Every row is replayed on real "
+         "order; (raw) input maps assembled field by field in orders the serializer never produces; (size) one map entry per variable-length field "
+         "class (scripts, witness stack items and item counts, preimages, utxo scripts, tap leaf scripts and control blocks, leaf-hash lists, key paths, "
+         "musig participant lists, tap tree leaf scripts and leaf counts, proprietary identifier / key data / value, unknown key / value) at the "
+         "compact-size width boundaries 252/253/254 and 65535/65536, whose key, value and entry lengths the specification prescribes and which the "
+         "harness writes with its own writer. Every row is replayed on real "
          "PartiallySignedTransaction objects: ComputeTimeLock, GetUnsignedTx, CombinePSBTs in every order, serialize -> DecodeRawPSBT -> serialize "
          "(decoded content equal to the model's record, second encoding byte-identical), and for every determinate lock row one signer per input "
          "(P2WPKH / P2PKH), CombinePSBTs of the signers' copies, FinalizeAndExtractPSBT, txid of the extracted transaction (scriptSigs blanked) = "
@@ -36,7 +40,8 @@ def enumerate_tables(ctx):
     """One TLC process per table, run concurrently (the JVM start dominates small tables); the merge table gets the spare workers."""
     sfx = "quick" if ctx.tier == "quick" else "thorough"
     spare = max(1, vflib.free_cpus() - 2)
-    jobs = [("PsbtMerge", "MC_merge_%s.cfg" % sfx, spare), ("PsbtLock", "MC_lock_%s.cfg" % sfx, 1), ("PsbtRaw", "MC_raw_%s.cfg" % sfx, 1)]
+    jobs = [("PsbtMerge", "MC_merge_%s.cfg" % sfx, spare), ("PsbtLock", "MC_lock_%s.cfg" % sfx, 1), ("PsbtRaw", "MC_raw_%s.cfg" % sfx, 1),
+            ("PsbtSize", "MC_size_%s.cfg" % sfx, 1)]
 
     def one(job):
         module, cfg, workers = job
@@ -54,7 +59,7 @@ def enumerate_tables(ctx):
 
 def vacuity(rows):
     by_t = collections.Counter(r["t"] for r in rows)
-    for t in ("lock", "merge", "raw"):
+    for t in ("lock", "merge", "raw", "size"):
         if not by_t[t]:
             raise vflib.InfraError("vacuity: no %s row" % t)
     lock = [r for r in rows if r["t"] == "lock"]
@@ -87,7 +92,12 @@ def vacuity(rows):
     raw = [r for r in rows if r["t"] == "raw"]
     if not any(r["drops"] for r in raw) or not any(not r["drops"] for r in raw):
         raise vflib.InfraError("vacuity: raw rows lack a dropping or a non-dropping case")
-    return dict(lock_rows_by_kind=dict(kinds), merge_rows_by_scenario={str(k): v for k, v in sorted(scen.items())},
+    size = [r for r in rows if r["t"] == "size"]
+    size_classes = collections.Counter(r["sc"] + "." + r["cls"] for r in size)
+    widths = collections.Counter((1 if x < 253 else 3 if x <= 65535 else 5) for r in size for x in (r["keylen"], r["vallen"]))
+    if len(size_classes) < 38 or not (widths[1] and widths[3] and widths[5]):
+        raise vflib.InfraError("vacuity: size rows cover %d classes, prefix widths %s" % (len(size_classes), dict(widths)))
+    return dict(size_rows_by_class=dict(size_classes), lock_rows_by_kind=dict(kinds), merge_rows_by_scenario={str(k): v for k, v in sorted(scen.items())},
                 combine_orders_predicted=dict(succeed=oks[True], fail=oks[False]), rows_by_table=dict(by_t))
 
 
@@ -96,6 +106,8 @@ def nontrivial(r):
         return any(i["t"] != "none" or i["h"] != "none" for i in r["p"]["ins"])
     if r["t"] == "merge":
         return True
+    if r["t"] == "size":
+        return max(r["keylen"], r["vallen"]) >= 253
     return len(r["p"]["ins"][0]["f"]) >= 2
 
 
@@ -124,24 +136,26 @@ def run(ctx):
     res = ctx.run_harness(binary, "table", rows, args=[str(ctx.seed)])
     s = res["summary"]
     ctx.evaluations = int(s["tests"])
-    ctx.traces = int(s.get("combines", 0)) + int(s.get("self_merges", 0)) + int(s.get("roundtrips", 0)) + int(s.get("raw_roundtrips", 0)) + int(s.get("extracted", 0))
+    ctx.traces = (int(s.get("combines", 0)) + int(s.get("self_merges", 0)) + int(s.get("roundtrips", 0)) + int(s.get("raw_roundtrips", 0)) +
+                  int(s.get("size_roundtrips", 0)) + int(s.get("extracted", 0)))
     ctx.nontrivial = set(vflib.digest(r) for r in rows if nontrivial(r))
     ctx.extra["implementation_calls"] = {k: int(v) for k, v in s.items() if k in (
-        "combines", "self_merges", "roundtrips", "raw_roundtrips", "extracted", "extracted_all_segwit", "lock_determinate", "lock_undetermined",
+        "combines", "self_merges", "roundtrips", "raw_roundtrips", "size_roundtrips", "extracted", "extracted_all_segwit", "lock_determinate", "lock_undetermined",
         "self_merge_of_undetermined_fails", "self_merge_of_undetermined_succeeds")}
-    for t in ("lock", "merge", "raw"):
+    for t in ("lock", "merge", "raw", "size"):
         ctx.sample(next(r for r in rows if r["t"] == t and nontrivial(r)))
     vflib.report_mismatches(ctx, binary, "table", res, args=[str(ctx.seed)], adapter="psbt", what_prefix="Psbt: ",
                             key_fn=lambda m, case: "row:" + vflib.digest(m.get("why")))
     report_findings(ctx, res)
     # vacuity of the replay (only meaningful when every row ran to its end)
-    if not ctx.violations and (not s.get("extracted") or not s.get("extracted_all_segwit") or not s.get("combines") or not s.get("roundtrips")):
+    if not ctx.violations and (not s.get("extracted") or not s.get("extracted_all_segwit") or not s.get("combines") or not s.get("roundtrips") or not s.get("size_roundtrips")):
         raise vflib.InfraError("vacuity: the harness extracted / combined / round-tripped nothing: %s" % dict(s))
     ctx.assumptions += ["values between the enumerated boundaries behave like their neighbours",
                         "fields are exercised through one or two representatives of every PSBT key type; byte-level mutations of encodings are out of scope"]
     return ctx.finish(level="model_checking", exhaustive=True,
-                      rule="every row of the three bounded tables (locktime shapes; field-group-to-holder assignments of every scenario in every "
-                           "order; assembled input maps); non-trivial = lock rows with a required locktime, all merge rows, raw rows with >= 2 fields")
+                      rule="every row of the four bounded tables (locktime shapes; field-group-to-holder assignments of every scenario in every "
+                           "order; assembled input maps; framed entries at the length-prefix boundaries); non-trivial = lock rows with a required "
+                           "locktime, all merge rows, raw rows with >= 2 fields, size rows with a key or value of >= 253 bytes")
 
 
 def replay(ctx, path):
